@@ -217,6 +217,20 @@ func initModels() {
 		x := m.fr.x
 		c := x.c
 		a, b := m.args[0], m.args[1]
+		// `abstract bytes.Equal` in the contract of the function being verified: equality of contents as an
+		// uninterpreted function of the two slices and the byte memory (enough where only "the same comparison" matters)
+		top := m.fr
+		for top.parent != nil && !top.top {
+			top = top.parent
+		}
+		if top.contract != nil {
+			for _, ab := range top.contract.Abstract {
+				if ab == "bytes.Equal" {
+					x.note("bytes.Equal abstracted to an uninterpreted function of its arguments and the byte memory in " + shortKey(top.key))
+					return c.UF("bytes_equal_abs", SBool, a, b, x.memOf(m.s, SBV(8)))
+				}
+			}
+		}
 		i := c.BVar("i", SBV(64))
 		mem := x.memOf(m.s, SBV(8))
 		return c.And(c.Eq(c.SlLen(a), c.SlLen(b)), c.Forall([]*Term{i}, c.Implies(c.BVCmp("bvult", i, c.SlLen(a)),
